@@ -649,14 +649,26 @@ pub open spec fn count_done(log: Seq<Ev>) -> nat
     }
 }
 
-/// AckInv (DESIGN §7 C04.ack / C01.ok-*): for every peer that never un-registered, its latest word
-/// of kind `k` is `Ok` exactly when this actor is ready for `k` and the peer is registered.
-pub open spec fn ack_c(req: Set<ActorId>, last: Map<ActorId, Word>, unreq: Set<(ActorId, ExecutionKind)>, k: ExecutionKind, ready: bool) -> bool {
+/// AckInv (DESIGN §7 C04.ack / C01.ok-*), for every peer that never un-registered, in two halves so that
+/// each failure is attributed to the property it belongs to:
+/// `told_only_if` [C01.ok-*]: its latest word of kind `k` is `Ok` only if this actor is ready and the peer registered;
+/// `told_if` [C04.ack]: if this actor is ready and the peer is registered, the peer has been told `Ok`.
+pub open spec fn told_only_if_c(req: Set<ActorId>, last: Map<ActorId, Word>, unreq: Set<(ActorId, ExecutionKind)>, k: ExecutionKind, ready: bool) -> bool {
     forall|r: ActorId| #![trigger last.contains_key(r)] #![trigger req.contains(r)]
-        !unreq.contains((r, k)) ==> ((last.contains_key(r) && last[r] is Ok) <==> (ready && req.contains(r)))
+        !unreq.contains((r, k)) ==> ((last.contains_key(r) && last[r] is Ok) ==> (ready && req.contains(r)))
 }
-pub open spec fn ack_inv(h: &TargetActorHelper, tr: Trace, k: ExecutionKind, ready: bool) -> bool {
-    ack_c(h.req(k), tr.lastk(k), tr.unreq, k, ready)
+pub open spec fn told_if_c(req: Set<ActorId>, last: Map<ActorId, Word>, unreq: Set<(ActorId, ExecutionKind)>, k: ExecutionKind, ready: bool) -> bool {
+    forall|r: ActorId| #![trigger last.contains_key(r)] #![trigger req.contains(r)]
+        !unreq.contains((r, k)) ==> ((ready && req.contains(r)) ==> (last.contains_key(r) && last[r] is Ok))
+}
+pub open spec fn ack_c(req: Set<ActorId>, last: Map<ActorId, Word>, unreq: Set<(ActorId, ExecutionKind)>, k: ExecutionKind, ready: bool) -> bool {
+    told_only_if_c(req, last, unreq, k, ready) && told_if_c(req, last, unreq, k, ready)
+}
+pub open spec fn told_only_if(h: &TargetActorHelper, tr: Trace, k: ExecutionKind, ready: bool) -> bool {
+    told_only_if_c(h.req(k), tr.lastk(k), tr.unreq, k, ready)
+}
+pub open spec fn told_if(h: &TargetActorHelper, tr: Trace, k: ExecutionKind, ready: bool) -> bool {
+    told_if_c(h.req(k), tr.lastk(k), tr.unreq, k, ready)
 }
 /// telling `Invalidated` to every requester re-establishes AckInv for "not ready"
 pub proof fn lemma_ack_bcast_inval(req: Set<ActorId>, l0: Map<ActorId, Word>, l1: Map<ActorId, Word>, unreq: Set<(ActorId, ExecutionKind)>, k: ExecutionKind, ready0: bool)
@@ -798,7 +810,8 @@ impl BuildTargetActor {
                 /*[C08.single-inflight]*/ ongoing_build_fuse.running() == ongoing_build_cancellation_sender.is_some(),
                 self.helper.to_execute ==> !self.helper.executed,
                 /*[C01.ok-build]*/ self.helper.executed ==> !ongoing_build_fuse.running() && tr.last_done_ok,
-                /*[C04.ack,C01.ok-build]*/ ack_inv(&self.helper, *tr, ExecutionKind::Build, self.helper.executed),
+                /*[C01.ok-build]*/ told_only_if(&self.helper, *tr, ExecutionKind::Build, self.helper.executed && !self.helper.to_execute),
+                /*[C04.ack]*/ told_if(&self.helper, *tr, ExecutionKind::Build, self.helper.executed && !self.helper.to_execute),
                 /*[C11.build-false]*/ only_ok_actual(*tr, ExecutionKind::Service, false),
                 /*[C11.build-true]*/ oks_actual(*tr, ExecutionKind::Build, true),
                 termination_event_received == tr.term_seen,
@@ -940,7 +953,8 @@ impl ServiceTargetActor {
                 /*[C01.book]*/ kinds_book(&self.helper, *tr),
                 self.helper.to_execute ==> !self.helper.executed,
                 /*[C01.ok-service]*/ self.helper.executed && !nonempty(tr.unreq) ==> self.service_process is Some,
-                /*[C04.ack,C01.ok-service]*/ ack_inv(&self.helper, *tr, ExecutionKind::Service, self.helper.executed),
+                /*[C01.ok-service]*/ told_only_if(&self.helper, *tr, ExecutionKind::Service, self.helper.executed && !self.helper.to_execute),
+                /*[C04.ack]*/ told_if(&self.helper, *tr, ExecutionKind::Service, self.helper.executed && !self.helper.to_execute),
                 /*[C11.service-true]*/ oks_actual(*tr, ExecutionKind::Service, true),
                 /*[C11.service-true]*/ only_ok_actual(*tr, ExecutionKind::Build, false),
                 /*[C10.reap-service,C11.single-instance]*/ reap_inv(self.service_process, *tr),
@@ -1036,8 +1050,10 @@ impl AggregateTargetActor {
                 /*[C01.book]*/ kinds_book(&self.helper, *tr),
                 /*[C20.actual,C11.agg-or]*/ dependencies@[ExecutionKind::Build]@ == actual_of(tr.inlog, ExecutionKind::Build),
                 /*[C20.actual,C11.agg-or]*/ dependencies@[ExecutionKind::Service]@ == actual_of(tr.inlog, ExecutionKind::Service),
-                /*[C04.ack,C20.fan-in,C01.ok-aggregate]*/ ack_inv(&self.helper, *tr, ExecutionKind::Build, self.helper.un(ExecutionKind::Build).len() == 0),
-                /*[C04.ack,C20.fan-in,C01.ok-aggregate]*/ ack_inv(&self.helper, *tr, ExecutionKind::Service, self.helper.un(ExecutionKind::Service).len() == 0),
+                /*[C01.ok-aggregate]*/ told_only_if(&self.helper, *tr, ExecutionKind::Build, self.helper.un(ExecutionKind::Build).len() == 0),
+                /*[C04.ack,C20.fan-in]*/ told_if(&self.helper, *tr, ExecutionKind::Build, self.helper.un(ExecutionKind::Build).len() == 0),
+                /*[C01.ok-aggregate]*/ told_only_if(&self.helper, *tr, ExecutionKind::Service, self.helper.un(ExecutionKind::Service).len() == 0),
+                /*[C04.ack,C20.fan-in]*/ told_if(&self.helper, *tr, ExecutionKind::Service, self.helper.un(ExecutionKind::Service).len() == 0),
                 /*[C20.actual,C11.agg-or]*/ agg_actual_ok(*tr, ExecutionKind::Build),
                 /*[C20.actual,C11.agg-or]*/ agg_actual_ok(*tr, ExecutionKind::Service),
                 /*[C04.no-unrequest]*/ tr.sent_unreq ==> nonempty(tr.unreq),
